@@ -3,7 +3,7 @@
     RawFileSystem._resolve_path raises RootEscapeError, regenerated from filesys.py into Gen/Containment_gen.v. *)
 From Coq Require Import List NArith Bool.
 From SV Require Import SM.PathNorm SM.PathNormProofs SM.PathOps SM.PathOpsProofs SM.PathWalkRel SM.PathMemo SM.PathMemoProofs
-  Gen.Containment_gen Gen.FsOps_gen.
+  SM.PathHistory SM.PathHistoryProofs Gen.Containment_gen Gen.FsOps_gen.
 Import ListNotations.
 
 (** Census obligation: every file-system access of RawFileSystem goes through _resolve_path. *)
@@ -209,6 +209,9 @@ Proof. exact walk_yield_names_the_file_found. Qed.
     other than classmethod/deprecated/..., no rebinding of a method, no attribute hook, no subclass override). *)
 Definition resolve_path_is_not_wrapped : bool := match resolve_path_wrappers with [] => true | _ => false end.
 Definition no_method_of_the_file_system_classes_is_wrapped : bool := match method_wrappers with [] => true | _ => false end.
+(** ... and no table outlives a call where a second file-system object can see it (module / class level containers,
+    mutable parameter defaults, state on method objects): the hand-written form of the same cache. *)
+Definition file_system_methods_share_no_mutable_state : bool := match shared_mutable_state with [] => true | _ => false end.
 
 (** Histories.  Calls of _resolve_path on any number of RawFileSystem objects (constrained or not, same or different
     roots) in any order, with a memo table in front of the method whose key contains the constrain flag, under EVERY
@@ -262,3 +265,41 @@ Theorem c18_memo_key_without_flag_refuted :
   memo_run false guard_rstrip_sep (s2l "/w") (fun c => c) [] (tl fault_history ++ tl fault_history)%list = [Escape; Escape].
 Proof. exact memo_key_without_flag_refuted. Qed.
 
+(** ------------------------------------------------------------------ whole histories of operations (round 3).
+    A history is any list of steps; a step is one access site of the table generated from filesys.py, executed by
+    one of any number of RawFileSystem objects (any roots, constrained or not) on arbitrary strings (argument, File
+    handle strings — e.g. a handle an earlier step of another object produced).  A memo table under any replacement
+    policy may stand in front of _resolve_path ([fun _ => []]: today's source, no table) and is threaded through the
+    evaluation.  If its key covers every step (it contains the flag, or all objects are constrained), then every path a
+    constrained object hands to the OS, at any point of any history, is inside that object's root. *)
+Theorem c18_history_every_access_inside :
+  raise_sound raise_if = true -> sites_ok raw_sites = true ->
+  forall with_flag cwd evict, is_abs cwd = true -> only_drops evict ->
+  forall ops n op a,
+    forallb (op_covered with_flag) ops = true ->
+    nth_error ops n = Some op -> oc_con op = true -> In (oc_site op) raw_sites ->
+    nth_error (hist_run with_flag raise_if cwd evict [] ops) n = Some (Some a) ->
+    inside (abspath cwd (oc_root op)) a.
+Proof.
+  intros Hg Hs wf cwd evict Hc He ops n op a Hall Hn Hcon Hin.
+  apply (hist_accesses_inside wf raise_if cwd evict Hg Hc He ops n op a Hall Hn Hcon).
+  unfold sites_ok in Hs. rewrite forallb_forall in Hs. exact (Hs _ Hin).
+Qed.
+
+(** The history is the step-by-step evaluation of the operations model: the table is invisible (any guard). *)
+Theorem c18_history_is_stepwise_model :
+  forall with_flag g cwd evict, only_drops evict ->
+  forall ops, forallb (op_covered with_flag) ops = true ->
+    hist_run with_flag g cwd evict [] ops = map (op_plain g cwd) ops.
+Proof. intros wf g cwd evict He ops H. exact (hist_run_transparent wf g cwd evict He ops [] (cache_valid_nil g cwd) H). Qed.
+
+(** Refuted without the flag in the key, on the level of operations: an unconstrained RawFileSystem('/t/root') opens
+    '..\secret.txt', then a constrained one on the same folder opens '../secret.txt' and receives /t/secret.txt. *)
+Theorem c18_history_key_without_flag_refuted :
+  raise_sound guard_rstrip_sep = true /\ site_ok open_site = true /\
+  hist_run false guard_rstrip_sep (s2l "/w") (fun c => c) [] fault_ops
+    = [Some (s2l "/t/secret.txt"); Some (s2l "/t/secret.txt")] /\
+  seg_prefixb (segs (abspath (s2l "/w") (s2l "/t/root"))) (segs (s2l "/t/secret.txt")) = false /\
+  hist_run true guard_rstrip_sep (s2l "/w") (fun c => c) [] fault_ops = [Some (s2l "/t/secret.txt"); None] /\
+  map (op_plain guard_rstrip_sep (s2l "/w")) fault_ops = [Some (s2l "/t/secret.txt"); None].
+Proof. exact hist_key_without_flag_refuted. Qed.
